@@ -28,7 +28,7 @@ import xml.etree.ElementTree as ET
 ID = "C35"
 LEVEL = "exploration"
 IN_PROCESS = False
-CHUNK_TIMEOUT = 900
+CHUNK_TIMEOUT = 2400
 RULE = (
     "real searches (MOSA/WHOLE_SUITE/MIO/RANDOM/RANDOM_TEST_SUITE_SEARCH with [BRANCH, LINE]; DYNAMOSA BRANCH-only and LINE-only "
     "controls; 9 tiny SUT modules + 2 with lambdas/nested/decorated code objects; 3-8 iterations; all minimisation strategies) with "
